@@ -6,6 +6,7 @@ mod driver;
 mod oracle;
 mod report;
 mod rng;
+mod c01;
 mod c03;
 mod c05;
 mod c06;
@@ -90,6 +91,11 @@ fn real_main() {
         "C12" => {
             rep = Report::new("C12", &o.tier, o.seed, "(root key, chain code, prefix, path of u32 child numbers) per derive_xpub case, plus single derive_child_pubkey steps and Base58 strings; non-trivial = valid root and non-hardened path of 2..=255 components (stream `child`: valid parent, normal index); distinct by request");
             match &replay_lines { Some(l) => c12::replay(&mut drv, &mut rep, l), None => c12::run(&o, &mut drv, &mut rep) }
+        }
+        "C01" | "C02" => {
+            rep = Report::new(&o.prop, &o.tier, o.seed, "C01: one honest random-vector-OLE exchange = (variant ext|ot, seed provenance synthetic|pipeline, session id, sender input a in Z_q^2, tapes of both parties); C02: the same plus one alteration of the round-two message (bit flip / overwrite / swap / rotation / splice from another session or run) or one re-derived deviation set (positions J, replacement inputs, guessed bits); non-trivial = every case (each runs the full protocol over 512 OT instances); distinct by scenario line");
+            let p = o.prop.clone();
+            match &replay_lines { Some(l) => c01::replay(&mut drv, &mut rep, l, &p), None => c01::run(&o, &mut drv, &mut rep, &p) }
         }
         "C03" | "C04" => {
             rep = Report::new(&o.prop, &o.tier, o.seed, "C03: one honest SoftSpoken run = (session id, all-but-one seed set with its 64 punctured indices, 512 choice bits, rng tape); C04: the same plus one alteration of the first-round message (bit flip / overwrite / swap / splice) or one re-derived deviation (blocks, difference vectors, guessed indices); non-trivial = every case (each runs the full protocol on 256 seeds x 640 columns); distinct by the full request");
